@@ -508,33 +508,60 @@ func (a *Analysis) ruleErrors() {
 		if op.Op.Kind == OpClose || op.Op.Kind == OpFinish {
 			continue
 		}
-		// the op may have failed because of another fault first; find the first failing invocation of the op
-		first := inv
+		// several faults may fire in one operation (a swallowed optional failure
+		// followed by another one): the reported error must be faithful to one of them
+		var cands []*Invocation
 		for _, other := range a.h.invs {
-			if other.Op == inv.Op && other.Fault != nil && other.ExitSeq < first.ExitSeq {
-				first = other
+			if other.Op == inv.Op && other.Fault != nil {
+				cands = append(cands, other)
 			}
 		}
-		if first != inv {
-			continue
+		if cands[0] != inv {
+			continue // judge each operation once
 		}
 		r := m.regs[inv.Reg]
 		shape := faultNames[f.Kind] + "/" + opNames[op.Op.Kind] + "/" + formNames[r.Form]
+		matched := false
+		onlyNil := true
+		var pe *godi.ConstructorPanicError
+		var pev godi.ConstructorPanicError
+		if errors.As(op.Err, &pe) {
+		} else if errors.As(op.Err, &pev) {
+			pe = &pev
+		}
+		for _, c := range cands {
+			switch c.Outcome {
+			case OutErr:
+				onlyNil = false
+				if errors.Is(op.Err, error(c.Fault.Err)) {
+					matched = true
+				}
+			case OutPanic:
+				onlyNil = false
+				if pe != nil && panicValueMatches(pe.Panic, c.Fault.PanicVal) {
+					matched = true
+				}
+			}
+		}
+		anyNil := false
+		for _, c := range cands {
+			if c.Outcome == OutNil {
+				anyNil = true // a nil result may be what made the operation fail; its error class is not prescribed
+			}
+		}
+		if matched || onlyNil || anyNil {
+			continue
+		}
+		if (hasClass(op.Classes, EScopeDisposed) || hasClass(op.Classes, EProviderDisposed)) && op.Handle >= 0 && a.closingStartedBefore(op.Handle, op.EndSeq) {
+			continue // the operation overlapped a Close and reports the disposed error
+		}
 		switch inv.Outcome {
 		case OutErr:
-			if !errors.Is(op.Err, error(f.Err)) {
-				a.add("C15", "C15.ctorError", shape, "op%d %s: constructor r%d#%d returned %v but the reported error does not wrap it: %v", op.GID, op.Op, inv.Reg, inv.N, f.Err, op.Err)
-			}
+			a.add("C15", "C15.ctorError", shape, "op%d %s: constructor r%d#%d returned %v but the reported error does not wrap it: %v", op.GID, op.Op, inv.Reg, inv.N, f.Err, op.Err)
 		case OutPanic:
-			var pe *godi.ConstructorPanicError
-			var pev godi.ConstructorPanicError
-			if errors.As(op.Err, &pe) {
-			} else if errors.As(op.Err, &pev) {
-				pe = &pev
-			}
 			if pe == nil {
 				a.add("C15", "C15.ctorPanic", shape, "op%d %s: constructor r%d#%d panicked with %v but the error exposes no ConstructorPanicError: %v", op.GID, op.Op, inv.Reg, inv.N, f.PanicVal, op.Err)
-			} else if !panicValueMatches(pe.Panic, f.PanicVal) {
+			} else {
 				a.add("C15", "C15.ctorPanic", shape+"/value", "op%d: constructor r%d#%d panicked with %#v but ConstructorPanicError.Panic is %#v", op.GID, inv.Reg, inv.N, f.PanicVal, pe.Panic)
 			}
 		}
